@@ -1,0 +1,10 @@
+//go:build !verif
+// +build !verif
+
+package verifhook
+
+import "sync"
+
+// PointRW marks a place between the look-up and the update of a structure that mu guards. Where mu is held at
+// that place (one critical section) nothing can come between the two.
+func PointRW(site string, mu *sync.RWMutex) {}
